@@ -2,6 +2,9 @@ package filesystem
 
 import (
 	"encoding/base64"
+	"time"
+
+	"github.com/wokdav/gopki/generator/cert"
 
 	v1 "github.com/wokdav/gopki/generator/config/v1"
 	"github.com/wokdav/gopki/generator/db"
@@ -92,5 +95,64 @@ func vhLongFileTail() {
 	vAssert(len(exts) == 1, "the certificate does not carry exactly the admission extension")
 	if len(exts) == 1 {
 		vAssert(len(exts[0].Value) == len(ref.Value) && string(exts[0].Value) == string(ref.Value), "the admission extension of a large configuration file does not carry the configured content")
+	}
+}
+
+// vhDollarFs: C07 from the configuration *file*: text that looks like a shell
+// or template variable (`$format`, `$1`, `${x}`) inside structured extension
+// content is ordinary text. A JSON configuration with such strings in an OCSP
+// URI, a CPS URI, a user notice and a SAN mail name: every extension in the
+// certificate is the one the builder produces for the same strings given as
+// typed values.
+func vhDollarFs() {
+	vClockFixed(1709640000)
+	fsys := vNewFs()
+	t0 := time.Unix(1700000000, 0)
+	ocsp, cps, text, mail := "http://o.example/q?$format=der&id=$1", "http://c.example/${x}/cps", "up to $100 per $item", "a$b@example.org"
+	fsys.put("doc.json", []byte(`{"version":1,"subject":"CN=doc","serialNumber":9,"validity":{"from":"2024-01-01","until":"2031-02-03"},"extensions":[`+
+		`{"authorityInformationAccess":{"content":[{"ocsp":"`+ocsp+`"}]}},`+
+		`{"certificatePolicies":{"content":[{"oid":"1.2.3","qualifiers":[{"cps":"`+cps+`"},{"userNotice":{"text":"`+text+`"}}]}]}},`+
+		`{"subjectAlternativeName":{"content":[{"type":"mail","name":"`+mail+`"}]}}]}`), t0)
+	d := NewFilesystemDatabase(fsys)
+	vAssert(d.Open() == nil, "Open failed")
+	list, err := db.PlanBulkUpdate(d, vDefaultFlags)
+	g := 0
+	if err == nil {
+		g, err = db.BulkUpdate(d, list)
+	}
+	vAssert(err == nil && g == 1, "the configuration was not generated")
+	if err != nil || g != 1 {
+		return
+	}
+	vReach("generated")
+	a, err := d.GetBuildArtifact("doc")
+	vAssert(err == nil && a != nil && a.Certificate != nil, "no certificate in the database after the run")
+	if err != nil || a == nil || a.Certificate == nil {
+		return
+	}
+	exts := a.Certificate.TBSCertificate.Extensions
+	vAssert(len(exts) == 3, "the certificate does not carry exactly the three configured extensions")
+	if len(exts) != 3 {
+		return
+	}
+	refs := []interface {
+		Builder() (cert.ExtensionBuilder, error)
+	}{
+		v1.AuthInfoAccess{Content: []v1.SingleAuthInfo{{Ocsp: ocsp}}},
+		v1.CertPolicies{Content: []v1.CertPolicy{{Oid: "1.2.3", Qualifiers: []v1.PolicyQualifiers{{Cps: cps}, {UserNotice: &v1.UserNotice{Text: text}}}}}},
+		v1.SubjectAltName{Content: []v1.SubjAltNameComponent{{Type: "mail", Name: mail}}},
+	}
+	for k, r := range refs {
+		b, berr := r.Builder()
+		vAssert(berr == nil && b != nil, "harness: reference builder failed")
+		if berr != nil || b == nil {
+			return
+		}
+		ref, cerr := b.Compile(nil)
+		vAssert(cerr == nil && ref != nil, "harness: reference extension failed")
+		if cerr != nil || ref == nil {
+			return
+		}
+		vAssert(len(exts[k].Value) == len(ref.Value) && string(exts[k].Value) == string(ref.Value), "text with a $ in structured extension content did not arrive unchanged in the certificate")
 	}
 }
